@@ -92,7 +92,11 @@ RELATION = (
     "drop); N is not touched. After every step: equal active tips; the previously final block is still in the "
     "ancestry of F's tip; the final block only moves forward. Every 5 steps: for every ALT block F retains that is on "
     "its active chain or descends from the final block, and every VBK/BTC block F retains: equal height, status word, "
-    "payload ids, containing endorsements, endorsedBy, VBK refcount, BTC refs, equal VBK/BTC best tips. Not compared: "
+    "payload ids, containing endorsements, endorsedBy, VBK refcount, BTC refs, equal VBK/BTC best tips. Status word of a "
+    "VBK/BTC block: the validation-level memo CONNECTED..CAN_BE_APPLIED of a VALID block that is not ACTIVE is "
+    "normalised (BaseBlockTree::doUpdateTips() iterates the unordered_set tips_ in pointer order, different in any two "
+    "instances; a stale branch visited before the eventual winner is applied once and raised, visited after it is not; "
+    "best chains and all answers are equal) - failed flags, ACTIVE, levels 0/1 and every ALT block stay exact. Not compared: "
     "tips_ sets (known finding tips-dirty-fork-erased), blocks F has deallocated, outdated blocks, the finalized mark, "
     "and the memory-only block-of-proof back pointers: they are not consensus state (their effect is covered by the "
     "compared cmp/payout answers), and in a finalizing instance the ones into deallocated containing blocks dangle "
